@@ -16,7 +16,7 @@ use mithril_common::messages::CertificateMessage;
 use mithril_common::test::builder::CertificateChainBuilder;
 
 use crate::certificate_client::tests_utils::CertificateClientTestBuilder;
-use crate::certificate_client::MemoryCertificateVerifierCache;
+use crate::certificate_client::{CertificateVerifierCache, MemoryCertificateVerifierCache};
 
 use super::*;
 
@@ -84,3 +84,22 @@ async fn scenario() {
 async fn replay_verify_chain() { scenario().await }
 #[tokio::test]
 async fn replay_verify_with_cache_enabled() { scenario().await }
+
+/// a chain that was rejected stays rejected when the provider presents it again: nothing of a certificate whose verification
+/// FAILED may be remembered by the cache (only links of certificates the verifier accepted are stored)
+#[tokio::test]
+async fn replay_verify_without_cache() {
+    let honest = CertificateChainBuilder::new().with_total_certificates(5).with_certificates_per_epoch(1).build();
+    let certs: Vec<Certificate> = honest.certificates_chained.clone();
+    let key = key_hex(&honest.genesis_verifier);
+    let genesis_hash = certs.last().unwrap().hash.clone();
+    // the third certificate re-targeted straight to the genesis certificate, hash not recomputed
+    let mut served: Vec<(String, Certificate)> = certs.iter().map(|c| (c.hash.clone(), c.clone())).collect();
+    served[2].1.previous_hash = genesis_hash.clone();
+    let cache = Arc::new(MemoryCertificateVerifierCache::new(TimeDelta::hours(1)));
+    let client = client_for(&served, key.clone(), cache.clone());
+    assert!(client.verify_chain(&certs[0].hash).await.is_err(), "altered chain accepted at its first presentation");
+    assert!(cache.get_previous_hash(&certs[2].hash).await.unwrap().is_none(),
+            "the link {} -> {} of a certificate whose verification FAILED was stored in the cache", certs[2].hash, genesis_hash);
+    assert!(client.verify_chain(&certs[0].hash).await.is_err(), "the very same altered chain is ACCEPTED at its second presentation (cache poisoned by the first, rejected run)");
+}
